@@ -4,6 +4,7 @@ CONSTANTS
   NOps = 1
   PartsOf <- MCParts
   FrameLockHeld = FALSE
+  WritesWhole = TRUE
   Connected = TRUE
 INVARIANT FramesIntact
 CHECK_DEADLOCK FALSE
